@@ -458,6 +458,8 @@ CompatIn(s, m) ==
 (*   Wild(g)         some number of Go kind g                              *)
 
 GList(lk, et, xs) == [k |-> "list", lk |-> lk, et |-> et, xs |-> xs]
+\* a value of a named Go type whose underlying basic type holds u (type Age int8; Age(1) = Named_(Num("i1", "int8")))
+Named_(u) == [k |-> "named", u |-> u]
 ErrJ == [k |-> "errnull"]
 MayJ(j) == [k |-> "may", v |-> j]
 AnyStr == [k |-> "anystr"]
@@ -466,7 +468,9 @@ LeakJ(gv) == [k |-> "leak", gv |-> gv]
 Wild(g) == [k |-> "wild", g |-> g]
 ObjectJ == [k |-> "object"]
 
-LeafOut(S, n, gv) ==
+\* A value of a named type is none of the types a scalar is documented to take: refusing it (null plus error) is in
+\* order, and so is treating it as the value of its underlying type - anything else is not.
+LeafOutB(S, n, gv) ==
   CASE n = "Int" ->                        \* a 32-bit integer
          IF gv.k = "num" THEN (IF Pt[gv.p].int /\ Pt[gv.p].i32 THEN Num(gv.p, "int32") ELSE ErrJ)
          ELSE IF gv.k = "str" /\ gv.s \in DOMAIN StrNum /\ Pt[StrNum[gv.s]].int /\ Pt[StrNum[gv.s]].i32
@@ -505,6 +509,10 @@ LeafOut(S, n, gv) ==
          ELSE ErrJ
     [] OTHER ->                            \* enum: the name of a declared value
          IF IsEnum(S, n) /\ gv.k \in {"sym", "str"} /\ gv.s \in S.enums[n] THEN Str(gv.s) ELSE ErrJ
+
+LeafOut(S, n, gv) ==
+  IF gv.k # "named" THEN LeafOutB(S, n, gv)
+  ELSE LET j == LeafOutB(S, n, gv.u) IN IF j.k \in {"errnull", "may"} THEN j ELSE MayJ(j)
 
 RECURSIVE CoerceOut(_, _, _)
 CoerceOut(S, t, gv) ==
